@@ -443,8 +443,8 @@ def apply_edit(ds: xr.Dataset, built: G.Built, state: dict, e: dict) -> xr.Datas
         v.attrs = attrs
         return out
     if op == 'g_conv':
-        if e['to'] == 'subclass':
-            state['subclass'] = True
+        if e['to'].startswith('subclass'):
+            state['subclass'] = e['to'].partition(':')[2] or True
         else:
             state['conv'] = e['to']
         return ds.copy()
@@ -524,7 +524,12 @@ def convention_class(state: dict):
         'shoc_simple': c.shoc.ShocSimple, 'shoc_standard': c.shoc.ShocStandard,
         'ugrid': c.ugrid.UGrid,
     }[state['conv']]
-    if state.get('subclass'):
+    sub = state.get('subclass')
+    if sub == 'name':        # another class of the same module
+        return type('Local' + base.__name__, (base,), {'__module__': base.__module__})
+    if sub == 'module':      # a class of the same name in another module
+        return type(base.__name__, (base,), {'__module__': 'verif_c16_local'})
+    if sub:
         return type('Local' + base.__name__, (base,), {'__module__': 'verif_c16_local'})
     return base
 
